@@ -18,9 +18,10 @@ interest / reward amounts)
     → `C08.borrow_respects_ltv`, `C08.draw_respects_ltv` (decision form: the `Dec` ratio the chain computes is ≤ the LTV),
       `C08.ltv_exact` (exact-rational corollary with the rounding slack ε = ½·10⁻¹⁸ + 10⁻³⁶ of `Dec.Quo`),
       `C08.interpool_borrow_respects_transit_ltv` (cross-pool: second check on the bridged transit asset).
-      The collateral is valued as the asset of the debited LEND POSITION; that this is the asset of the pledged cTokens holds only
-      when the pair's collateral asset is the lend's asset — `C08.borrow_respects_ltv_pledged_partial`; the code never checks it:
-      `C08.borrow_ltv_foreign_pair_counterexample`.
+      The handlers value the collateral as the asset of the debited LEND POSITION; since the repair of defect A (`BorrowAsset` now
+      refuses a pair whose collateral asset is not the lend's asset) this is the asset of the pledged cTokens:
+      `C08.borrow_respects_ltv_pledged` (the message level statement: pledged denom = cToken of the pair's collateral asset, valued as
+      that asset); regression example for the old witness below it.
 * "… and the pool actually holds the lent-out coins" → `C08.borrow_requires_pool_funds`, `C08.draw_requires_pool_funds`.
 * "withdrawing or closing a lend position never releases collateral pledged to an open borrow"
     → `C08.withdraw_never_releases_pledged`, `C08.closeLend_never_releases_pledged`.
@@ -137,12 +138,14 @@ the message is a collateral top-up followed by a draw on that borrow (`draw_resp
 theorem borrow_msg_cases {cfg : Cfg} {s s' : State} {u k pid : Nat} {stable : Bool} {dIn : Nat} {aIn : Int} {dOut : Nat} {aOut : Int} {e1 e2 : ExtB}
     (h : borrow cfg s u k pid stable dIn aIn dOut aOut e1 e2 = .ok s') :
     (∃ l pair rates, getLend s.lends k = some l ∧ cfg.pair? pid = some pair ∧ cfg.rates? pair.assetIn = some rates ∧
+        dIn = rates.cAsset ∧ pair.assetIn = l.asset ∧
         findBorrowByPair s u pid = none ∧ borrowNew cfg s u l pair rates stable dIn aIn dOut aOut = .ok s') ∨
     (∃ b s1, findBorrowByPair s u pid = some b ∧ depositBorrow cfg s u b.id dIn aIn e1 = .ok s1 ∧ draw cfg s1 u b.id dOut aOut e2 = .ok s') := by
   unfold borrow at h
   invert h
   · exact Or.inr ⟨_, _, ‹_›, ‹_›, ‹_›⟩
-  · exact Or.inl ⟨_, _, _, ‹getLend s.lends k = some _›, ‹cfg.pair? pid = some _›, ‹cfg.rates? _ = some _›, ‹_›, ‹_›⟩
+  · exact Or.inl ⟨_, _, _, ‹getLend s.lends k = some _›, ‹cfg.pair? pid = some _›, ‹cfg.rates? _ = some _›,
+      by simpa using ‹(dIn == _) = true›, by simpa using ‹(PairCfg.assetIn _ == _) = true›, ‹_›, ‹_›⟩
 
 /-- **A draw respects the LTV** (decision form): principal + accrued interest (after the accrual the message itself performs) + the
 new loan, against the whole pledged collateral. -/
@@ -182,15 +185,20 @@ theorem interpool_borrow_respects_transit_ltv {cfg : Cfg} {s s' : State} {u : Na
     | (obtain ⟨r, hr, hle⟩ := verifyCR_ok ‹verifyCR cfg s.prices (Dec.truncateInt _) _ aOut pair.assetOut _ = .ok _›
        exact ⟨_, _, _, r, by assumption, hr, hle, _, _, rfl⟩)
 
-/-- **The valuation is that of the pledged tokens when the pair's collateral asset is the lend's asset** (strongest true form of
-"collateral value" for the cTokens actually pledged: `dIn` is forced to be the cToken of `pair.assetIn`). -/
-theorem borrow_respects_ltv_pledged_partial {cfg : Cfg} {s s' : State} {u : Nat} {l : Lend} {pair : PairCfg} {rates : RatesCfg} {stable : Bool}
-    {dIn : Nat} {aIn : Int} {dOut : Nat} {aOut : Int} (h : borrowNew cfg s u l pair rates stable dIn aIn dOut aOut = .ok s')
-    (hsame : pair.assetIn = l.asset) :
-    ∃ r, collRatio cfg s.prices aIn pair.assetIn aOut pair.assetOut = .ok r ∧ r ≤ ltvOf pair rates := by
-  rw [hsame]; exact borrow_respects_ltv h
+/-- **A new borrow respects the LTV on the tokens actually pledged**: when a borrow message opens a borrow, the pledged denomination
+is the cToken of the pair's collateral asset, that asset is the asset of the debited lend position, and the ratio of the loan value to
+the value of the pledged amount (valued as that asset, at the prices in force) is at most the applicable LTV. -/
+theorem borrow_respects_ltv_pledged {cfg : Cfg} {s s' : State} {u k pid : Nat} {stable : Bool} {dIn : Nat} {aIn : Int} {dOut : Nat} {aOut : Int}
+    {e1 e2 : ExtB} (h : borrow cfg s u k pid stable dIn aIn dOut aOut e1 e2 = .ok s') (hnew : findBorrowByPair s u pid = none) :
+    ∃ l pair rates r, getLend s.lends k = some l ∧ cfg.pair? pid = some pair ∧ cfg.rates? pair.assetIn = some rates ∧
+      dIn = rates.cAsset ∧ l.asset = pair.assetIn ∧
+      collRatio cfg s.prices aIn pair.assetIn aOut pair.assetOut = .ok r ∧ r ≤ ltvOf pair rates := by
+  rcases borrow_msg_cases h with ⟨l, pair, rates, hl, hp, hr, hd, hsame, _, hb⟩ | ⟨b, _, hb, _⟩
+  · obtain ⟨r, hr', hle⟩ := borrow_respects_ltv hb
+    exact ⟨l, pair, rates, r, hl, hp, hr, hd, hsame.symm, by rw [hsame]; exact hr', hle⟩
+  · rw [hnew] at hb; cases hb
 
-/-! ### witness: a pair registered for another asset of the pool (defect A of notes/C08.md) -/
+/-! ### regression: a pair registered for another asset of the pool (repaired defect A of notes/C08.md) -/
 
 /-- assets 1 (X, price 2), 2 (Y, price 1), 3 (Z, price 1), cTokens 4, 5, 6; one pool holding all three; pair 1 = (Y → Z). -/
 def cfgF : Cfg :=
@@ -204,18 +212,14 @@ def bankF : Bank := [((1, 1), 1000), ((1, 2), 1000), ((101, 3), 1000)]
 def pricesF : List (Nat × Nat) := [(1, 2000000), (2, 1000000), (3, 1000000)]
 /-- user 1 lends 100 X (lend 1) and 100 Y (lend 2) -/
 def stateF : State := run cfgF (init cfgF bankF pricesF) [.lend 1 1 1 100 1 1 0, .lend 1 2 2 100 1 1 0]
-/-- … and borrows 90 Z on the X lend through the (Y → Z) pair, pledging 100 cY -/
+/-- … and tries to borrow 90 Z on the X lend through the (Y → Z) pair, pledging 100 cY: before the repair this was accepted although
+100 cY (= 100) at LTV 0.5 do not cover 90 (the pledge was valued as 100 X = 200) -/
 def opF : Op := .borrow 1 1 1 false 5 100 3 90 .err .err
 
-/-- **Counterexample (foreign pair)**: the borrow is accepted although the value of the pledged tokens (100 cY = 100) times the LTV of
-the pair's collateral asset (0.5) does not cover the loan (90): the ratio at the prices in force is 0.9 > 0.5. `BorrowAsset`
-(keeper.go:553-555) only checks that the pair is registered for `(pair.AssetIn, lend.PoolID)`, never that `pair.AssetIn` is the
-asset of the lend position, and values the pledge as the lend's asset (keeper.go:629). -/
-theorem borrow_ltv_foreign_pair_counterexample :
-    (step cfgF stateF opF).toBool = true ∧
-    (match collRatio cfgF stateF.prices 100 2 90 3 with
-     | .ok r => decide (r > 500000000000000000)
-     | .error _ => false) = true := by decide
+/-- the foreign-pair borrow is refused; on the Y lend the same pair lends up to the LTV (50) and not one unit more -/
+example : (step cfgF stateF opF).toBool = false ∧
+    (step cfgF stateF (.borrow 1 2 1 false 5 100 3 50 .err .err)).toBool = true ∧
+    (step cfgF stateF (.borrow 1 2 1 false 5 100 3 51 .err .err)).toBool = false := by decide
 
 /-! ## Pool funds -/
 
@@ -312,8 +316,9 @@ theorem totalLend_handover_counterexample :
 /-! ## Non-vacuity: the hypotheses of every theorem above are met by concrete non-trivial runs -/
 
 /-- `totalLend_eq`: a hand-over-free history with two lends and an open borrow -/
-example : (∀ op ∈ [Op.lend 1 1 1 100 1 1 0, .lend 1 2 2 100 1 1 0, opF], op.isHandover = false) ∧
-    (run cfgF (init cfgF bankF pricesF) [.lend 1 1 1 100 1 1 0, .lend 1 2 2 100 1 1 0, opF]).borrows.length = 1 := by decide
+example : (∀ op ∈ [Op.lend 1 1 1 100 1 1 0, .lend 1 2 2 100 1 1 0, .borrow 1 2 1 false 5 100 3 50 .err .err], op.isHandover = false) ∧
+    (run cfgF (init cfgF bankF pricesF) [.lend 1 1 1 100 1 1 0, .lend 1 2 2 100 1 1 0, .borrow 1 2 1 false 5 100 3 50 .err .err]).borrows.length = 1 := by
+  decide
 
 /-- `totalLend_eq_partial`: a history with a clean hand-over (60 of 100 pledged, the position survives with 40) -/
 example : CleanRun cfgH (init cfgH bankH pricesH) [.lend 1 1 1 100 1 1 0, .borrow 1 1 1 false 3 60 2 10 .err .err, .handover 1 0] ∧
@@ -324,7 +329,7 @@ example : CleanRun cfgH (init cfgH bankH pricesH) [.lend 1 1 1 100 1 1 0, .borro
 /-- the state after `lend 100 A; borrow 10 B against 60 cA` -/
 def stateE : State := run cfgH (init cfgH bankH pricesH) [.lend 1 1 1 100 1 1 0, .borrow 1 1 1 false 3 60 2 10 .err .err]
 
-/-- `borrow_respects_ltv`, `borrow_requires_pool_funds`, `borrow_respects_ltv_pledged_partial`: an accepted new borrow on a regular pair -/
+/-- `borrow_respects_ltv`, `borrow_requires_pool_funds`, `borrow_respects_ltv_pledged`: an accepted new borrow on a regular pair -/
 example : (borrowNew cfgH (run cfgH (init cfgH bankH pricesH) [.lend 1 1 1 100 1 1 0]) 1 ⟨1, 1, 1, 1, 100, 100⟩ ⟨1, 1, 2, false, 1, false⟩
     ⟨1, 500000000000000000, 0, 3, false, false⟩ false 3 60 2 10).toBool = true ∧ (⟨1, 1, 2, false, 1, false⟩ : PairCfg).assetIn = (⟨1, 1, 1, 1, 100, 100⟩ : Lend).asset := by
   decide
